@@ -79,7 +79,7 @@ def obligations(ck, t):
 
 def diagnostics(ck):
     txt = HDR + ("Eval vm_compute in (failing_tables gen).\nEval vm_compute in (failing_builder gen).\n"
-                 "Eval vm_compute in (not_refused gen).\nEval vm_compute in (failing_select gen).\nEval vm_compute in (failing_zero gen).\nEval vm_compute in (failing_precision gen).\nEval vm_compute in (failing_strings gen).\nEval vm_compute in (failing_optimized gen, skeleton_ok gen).\nEval vm_compute in (groups_ok gen, none_ok gen, units_ok gen, kinds_covered gen).\n")
+                 "Eval vm_compute in (not_refused gen).\nEval vm_compute in (failing_select gen).\nEval vm_compute in (failing_popsel gen).\nEval vm_compute in (failing_zero gen).\nEval vm_compute in (failing_precision gen).\nEval vm_compute in (failing_strings gen).\nEval vm_compute in (failing_optimized gen, skeleton_ok gen).\nEval vm_compute in (groups_ok gen, none_ok gen, units_ok gen, kinds_covered gen).\n")
     ok, res, out = ck.coq_eval("Diag_C05.v", txt)
     return res if ok else ["diagnostics failed: " + out[-300:]]
 
@@ -221,9 +221,11 @@ def gen_doc(r, n, special=None):
         p = {"id": "pop%d" % k, "component": r.choice(cells), "instances": [], "properties": []}
         if r.random() < 0.5:
             p["size"] = r.randint(1, 20)
+            if r.random() < 0.3:
+                p["type"] = r.choice(["population", "populationList"])
         else:
             m = r.randint(1, 6)
-            p["type"] = "populationList"
+            p["type"] = r.choice(["populationList", "populationList", None, "population"])
             iids = list(range(m))
             p["instances"] = [[iids[j], fnum(r), fnum(r), fnum(r)] for j in range(m)]
             if r.random() < 0.3:
@@ -568,6 +570,37 @@ def rename_population(n, old, new):
             il["population"] = new
         for c in il["inputs"]:
             c["target"] = c["target"].replace("../%s[" % old, "../%s[" % new).replace("../%s/" % old, "../%s/" % new)
+
+
+def population_class_cases():
+    """deterministic, every run: populations WITH instances x type in {unset, population, populationList} x size in {unset,
+    = number of instances, another number}, and sized populations x the same types -> (label, spec, expect).
+    Each carries a projection and an input list onto it, so that the cell references are exercised in both path forms."""
+    out = []
+    for typ in (None, "population", "populationList"):
+        for sc, size in (("unset", None), ("equal", 3), ("other", 8)):
+            s = base_spec()
+            n = s["networks"][0]
+            pb = n["populations"][1]
+            pb["type"] = typ
+            pb["size"] = size
+            if typ is None:
+                pb.pop("type")
+            n["projections"].append({"id": "pr", "pre": "pA", "post": "pB", "synapse": "syn1", "conns": [
+                {"v": "C", "id": 0, "pre": "../pA[1]", "post": "../pB/2/iaf"}, {"v": "C", "id": 1, "pre": "../pA[0]", "post": "../pB[1]"}]})
+            n["input_lists"].append({"id": "il", "component": "pg", "population": "pB", "inputs": [{"v": "I", "id": 0, "target": "../pB/1/iaf"}]})
+            out.append(("population:instances:type=%s:size=%s" % (typ, sc), s, "same"))
+        for sc, size in (("unset", None), ("given", 4)):
+            s = base_spec()
+            n = s["networks"][0]
+            pa = n["populations"][0]
+            pa["size"] = size
+            if typ is not None:
+                pa["type"] = typ
+            n["input_lists"].append({"id": "il", "component": "pg", "population": "pA", "inputs": [{"v": "I", "id": 0, "target": "../pA[1]"}]})
+            # a population with neither instances nor a size cannot be held: refusal (write or load) or a faithful round trip
+            out.append(("population:sized:type=%s:size=%s" % (typ, sc), s, "same" if size is not None else "any"))
+    return out
 
 
 def boundary_string_cases():
@@ -942,6 +975,17 @@ def run(ck):
         ck.tally("single_field_off")
         if not r["verdict"]["ok"]:
             report_all(ck, "only one field off its default (%s)" % label, spec, r)
+
+    # ---- every run: every class of population (instances / sized) x type attribute x size
+    pc = population_class_cases()
+    res = ck.impl("c05_impl.py", {"cases": [{"spec": s, "modes": ["plain", "optimized"], "expect": e} for _, s, e in pc]}, timeout=900)["results"]
+    for (label, spec, expect), rr in zip(pc, res):
+        ck.count(1, nontrivial_key="popclass:" + label)
+        ck.tally("population_class")
+        for mode, r in rr.items():
+            if not r["verdict"]["ok"]:
+                report_all(ck, "population class (%s, %s loader)" % (label, mode), spec, r, mode=mode, expect=expect,
+                           prefix="C05:optimized:" if mode == "optimized" else "")
 
     # ---- every run: every string slot with every boundary value that is legal for it (plain and optimized loader)
     bs = boundary_string_cases()
